@@ -109,7 +109,7 @@ CHECKS = {
         },
         "runs": [conc("HarnessC04Quick", ["c04-end", "c04-config-rejected"]), conc("HarnessC04NonBlocking", ["c04-end"]),
                  {"entry": M + "/sourcewrap.HarnessC04Wrapped", "pkgs": SW, "must_reach": ["c04-wrapped-end"], "instrument": [M, M + "/sourcewrap"], "validate": 0},
-                 conc("HarnessC07Quick", ["c07-end"]), conc("HarnessC09Race", ["c09-race-end"]), conc("HarnessC04Aliasing", ["c04-aliasing-end"]), conc("HarnessC04Thorough", ["c04-end"], ["thorough"])],
+                 conc("HarnessC07Quick", ["c07-end"]), conc("HarnessC09Race", ["c09-race-end"]), conc("HarnessC04Aliasing", ["c04-aliasing-end"]), conc("HarnessC08StackError", ["c08-stackerr-end"]), conc("HarnessC06DrainOnCancel", ["c06-drain-end"]), conc("HarnessC04Thorough", ["c04-end"], ["thorough"])],
         "bounds": {"quick": "1 watching source, 2 updates (blocking and plain), reader with 2 reads; 2 blocking reports of arbitrary validity through a transforming source; all schedules", "thorough": "3 updates"},
         "outside": "more updates/sources; callback queue overflow (64) is not reached",
         "assumptions": CONC_ASSUME,
@@ -134,7 +134,7 @@ CHECKS = {
             "design_ref": "DESIGN.md §4 C06",
         },
         "runs": [conc("HarnessC06Quick", ["c06-end"]), conc("HarnessC06Unregister", ["c06-end"]), conc("HarnessC06NoGlobal", ["c06-end"]),
-                 conc("HarnessC06UnregisterShutdown", ["c06-shutdown-end"]), conc("HarnessC06DrainOnCancel", ["c06-drain-end"]), conc("HarnessC06AfterOverflow", ["c06-overflow-end"]), conc("HarnessC06Thorough", ["c06-end"], ["thorough"])],
+                 conc("HarnessC06UnregisterShutdown", ["c06-shutdown-end"]), conc("HarnessC06DrainOnCancel", ["c06-drain-end"]), conc("HarnessC06AfterOverflow", ["c06-overflow-end"]), conc("HarnessC06SameContent", ["c06-same-end"]), conc("HarnessC06Thorough", ["c06-end"], ["thorough"])],
         "bounds": {"quick": "2 installs, 1 registrar (3 serial modes), optional unregister; with and without global callbacks; unregister racing with a slow callback and the watcher's Done; all schedules", "thorough": "3 installs, slow callbacks"},
         "outside": "which versions are dropped on overflow (only the behaviour after one overflow is checked); several registrars",
         "assumptions": CONC_ASSUME,
@@ -145,7 +145,7 @@ CHECKS = {
             "note": "Blank.SetSource is covered in C20's Blank harness (it calls this method under a mutex)",
             "design_ref": "DESIGN.md §4 C07",
         },
-        "runs": [conc("HarnessC08BlockedCallback", ["c08-blocked-end"]), conc("HarnessC07Quick", ["c07-end"]), conc("HarnessC07Second", ["c07-end"]),
+        "runs": [conc("HarnessC08StackError", ["c08-stackerr-end"]), conc("HarnessC08BlockedCallback", ["c08-blocked-end"]), conc("HarnessC07Quick", ["c07-end"]), conc("HarnessC07Second", ["c07-end"]),
                  {"entry": M + "/sourcewrap.HarnessC04Wrapped", "pkgs": SW, "must_reach": ["c04-wrapped-end"], "instrument": [M, M + "/sourcewrap"], "validate": 0},
                  {"entry": M + "/sourcewrap.HarnessC20BlankContexts", "pkgs": SW, "must_reach": ["c20-blank-ctx-end", "c20-blank-late-end", "c20-blank-eager-end"], "instrument": [M, M + "/sourcewrap"], "validate": 0},
                  {"entry": M + "/sourcewrap.HarnessC20Blank", "pkgs": SW, "must_reach": ["c20-blank-end", "c20-blank-done"], "instrument": [M, M + "/sourcewrap"], "validate": 0}],
@@ -161,7 +161,7 @@ CHECKS = {
         },
         "runs": [conc("HarnessC08Quick", ["c08-end"]), conc("HarnessC08Seq2", ["c08-end"]), conc("HarnessC08DoubleUnregister", ["c08-double-unreg-end"]),
                  conc("HarnessC08LateCalls", ["c08-late-end"]), conc("HarnessC08BlockedCallback", ["c08-blocked-end"]), conc("HarnessC08BlockingCancel", ["c08-blocking-cancel-end"]),
-                 conc("HarnessC08TwoWatchers", ["c08-two-watchers-end"]), conc("HarnessC08PendingUnregister", ["c08-pending-unreg-end"]), conc("HarnessC08StackError", ["c08-stackerr-end"]), conc("HarnessC08UncomparableSource", ["c08-uncomparable-end"]),
+                 conc("HarnessC08TwoWatchers", ["c08-two-watchers-end"]), conc("HarnessC08PendingUnregister", ["c08-pending-unreg-end"]), conc("HarnessC08StackError", ["c08-stackerr-end"]), conc("HarnessC08UncomparableSource", ["c08-uncomparable-end"]), conc("HarnessC08EventsConsumer", ["c08-events-end"]), conc("HarnessC09EnableCancel", ["c09-enable-cancel-end"]),
                  {"entry": M + "/sourcewrap.HarnessC20BlankContexts", "pkgs": SW, "must_reach": ["c20-blank-ctx-end", "c20-blank-late-end", "c20-blank-eager-end"], "instrument": [M, M + "/sourcewrap"], "validate": 0},
                  conc("HarnessC08Thorough", ["c08-end"], ["thorough"], maxpaths=3000000)],
         "bounds": {"quick": "2 callers x 1 op, 2 sequential ops, 9-op alphabet, delay on/off; two watchers finishing in either order or concurrently; an unregistration pending (optionally behind a stuck callback) at shutdown; all schedules", "thorough": "2+1 ops; blocked-callback run of 67 updates"},
@@ -174,7 +174,7 @@ CHECKS = {
             "note": "sequential harness (events are issued from one goroutine, callbacks observed at quiescence); racing EnableVerification with an in-flight update is covered by the schedules of the monitor/reporter rendezvous",
             "design_ref": "DESIGN.md §4 C09",
         },
-        "runs": [conc("HarnessC09Quick", ["c09-end"]), conc("HarnessC09NoWatcher", ["c09-end"]), conc("HarnessC09Race", ["c09-race-end"]), conc("HarnessC09EnableCancel", ["c09-enable-cancel-end"]), conc("HarnessC08StackError", ["c08-stackerr-end"]), conc("HarnessC09NoVerify", ["c09-noverify-end"]),
+        "runs": [conc("HarnessC09Quick", ["c09-end"]), conc("HarnessC09NoWatcher", ["c09-end"]), conc("HarnessC09Race", ["c09-race-end"]), conc("HarnessC09EnableCancel", ["c09-enable-cancel-end"]), conc("HarnessC08StackError", ["c08-stackerr-end"]), conc("HarnessC09NoVerify", ["c09-noverify-end"]), conc("HarnessC06DrainOnCancel", ["c06-drain-end"]),
                  conc("HarnessC09Thorough", ["c09-end"], ["thorough"])],
         "bounds": {"quick": "3 events; 4 Delay x suppress combinations plus SkipInitialVerification with/without suppress; initial validity symbolic; an EnableVerification call abandoned at an arbitrary moment, then retried; Verify fails for an external reason during EnableVerification calls that are documented not to verify", "thorough": "4 events"},
         "outside": "longer event sequences",
@@ -202,6 +202,7 @@ CHECKS = {
             {"entry": M + "/sources/flag.HarnessC12Scalars", "pkgs": FLAGP, "must_reach": ["c12-end", "c12-error"]},
             {"entry": M + "/sources/flag.HarnessC12Collections", "pkgs": FLAGP, "must_reach": ["c12-end", "c12-error"]},
             {"entry": M + "/sources/flag.HarnessC12Nested", "pkgs": FLAGP, "must_reach": ["c12-nested-end", "c12-nested-error"]},
+            {"entry": M + "/sources/flag.HarnessC16FlagPtrLeaves", "pkgs": FLAGP, "must_reach": ["c16-flag-ptr-end"]},
             {"entry": M + "/sources/flag.HarnessC12Gen2", "pkgs": FLAGP, "must_reach": ["c12-gen-end", "c12-gen-error"]},
             {"entry": M + "/sources/flag.HarnessC12Gen3", "pkgs": FLAGP, "must_reach": ["c12-gen-end", "c12-gen-error"], "tiers": ["thorough"]},
             {"entry": M + "/sources/pflag.HarnessC12PflagGen2", "pkgs": PFLAGP, "must_reach": ["c12-pgen-end", "c12-pgen-error"]},
@@ -243,6 +244,7 @@ CHECKS = {
         "runs": [
             {"entry": M + "/sources/env.HarnessC14Env", "pkgs": ENVP + ["sort"], "must_reach": ["c14-end", "c14-both-error"]},
             {"entry": M + "/sources/env.HarnessC14EnvNested", "pkgs": ENVP + ["sort"], "must_reach": ["c14-end", "c14-both-error"]},
+            {"entry": M + "/sources/env.HarnessC11Gen2", "pkgs": ENVP, "must_reach": ["c11-gen-end", "c11-gen-error"]},
             {"entry": M + "/sources/env.HarnessC14EnvImplicit", "pkgs": ENVP + ["sort"], "must_reach": ["c14-implicit-end", "c14-implicit-both-error"]},
             {"entry": M + "/sources/flag.HarnessC14Flag", "pkgs": FLAGP, "must_reach": ["c14-flag-end", "c14-flag-both-error"]},
             {"entry": M + "/sources/pflag.HarnessC14Pflag", "pkgs": PFLAGP, "must_reach": ["c14-pflag-end", "c14-pflag-both-error"]},
@@ -262,6 +264,7 @@ CHECKS = {
             {"entry": PARSE + ".HarnessC15ParseStringInts", "pkgs": LIBS, "must_reach": ["c15-parsestring-end"]},
             {"entry": PARSE + ".HarnessC15FloatBoundaries", "pkgs": LIBS, "must_reach": ["c15-float-end"]},
             {"entry": PARSE + ".HarnessC15FloatValues", "pkgs": LIBS, "must_reach": ["c15-floatvalues-end"]},
+            {"entry": PARSE + ".HarnessC15MapInts", "pkgs": TEXT, "must_reach": ["c15-mapints-end"], "loopcap": 300},
             {"entry": M + "/sources/flag/flaghelper.HarnessC15HelperInts", "pkgs": HELP, "must_reach": ["c15-helper-ints-end"]},
             {"entry": M + "/sources/flag/flaghelper.HarnessC15HelperStrings1", "pkgs": HELP, "must_reach": ["c15-helper-strings-end"], "loopcap": 400},
             {"entry": M + "/sources/flag/flaghelper.HarnessC15HelperEmpty", "pkgs": HELP, "must_reach": ["c15-helper-empty-end"], "loopcap": 400},
@@ -344,6 +347,7 @@ CHECKS = {
             {"entry": M + "/sourcewrap.HarnessC20BlankContexts", "pkgs": SW, "must_reach": ["c20-blank-ctx-end", "c20-blank-late-end", "c20-blank-eager-end"], "instrument": [M, M + "/sourcewrap"], "validate": 0},
             {"entry": M + "/sourcewrap.HarnessC20Slices", "pkgs": SW + ["github.com/fatih/structtag"], "must_reach": ["c20-slices-end"], "instrument": [M, M + "/sourcewrap"], "validate": 0},
             {"entry": M + "/sourcewrap.HarnessC20AnonFlatten", "pkgs": SW, "must_reach": ["c20-anon-end"], "instrument": [M, M + "/sourcewrap"], "validate": 0},
+            {"entry": M + "/sourcewrap.HarnessC20BlankConcurrent", "pkgs": SW, "must_reach": ["c20-blank-conc-end"], "instrument": [M, M + "/sourcewrap"], "validate": 0},
         ],
         "bounds": {"quick": "1 wrapped source (value- or pointer-returning), 3 updates, all int64 values; a decoder shared by 2 config types; Blank: 3 operations, SetSource contexts, SetSource after Done; slices of structs unset/empty/1 element initially and on update through a recursing mangler", "thorough": "same"},
         "outside": "other mangler lists on the watch path",
